@@ -306,6 +306,14 @@ theorem drain_refines (k : Nat) (b : Bounded α) (h : b.Inv) :
     (Bounded.drainTake k b).1.abs = b.abs.drop k ∧ (Bounded.drainTake k b).2 = b.abs.take k :=
   ⟨(drainTake_spec k b h).2.2.1, (drainTake_spec k b h).2.2.2⟩
 
+/-- every sum the `Bounded` code forms in `usize` before reducing it modulo the capacity —
+    `start + index` for a live index (`get`, `get_mut`, `Index`), `start + len` (`push`, `slices`) and
+    `start + 1` (`pop`, the evicting `push`) — is below `2 * capacity`, hence cannot overflow `usize` for
+    any slice of non-zero-sized elements (a slice has at most `isize::MAX` bytes: `2 * capacity ≤ usize::MAX`) -/
+theorem bounded_sums_small (b : Bounded α) (h : b.Inv) (i : Nat) (hi : i < b.len) :
+    b.start + i < 2 * b.maxLen ∧ b.start + b.len < 2 * b.maxLen ∧ b.start + 1 < 2 * b.maxLen := by
+  unfold Bounded.Inv at h; omega
+
 /-- *"drain"* advanced with `Iterator::nth` (what `skip` / `step_by` call): `rb.drain().nth(k)` —
     `k+1` steps of the draining iterator, of which the client sees the last — hands out the element at
     index `k` of the ideal queue (`None` if there is none) and removes exactly the elements up to and
